@@ -777,10 +777,29 @@ def unset_mapping(repo: Repo, rep, P: str, mc):
         raise AnchorMissing("MultiCtl.on_value_changed")
     rep.func("rv.modules.multictl.MultiCtl.on_value_changed")
     construct = f"{rel}:MultiCtl.on_value_changed"
-    loop = next((st for st in fn.body if isinstance(st, ast.For) and "out_links" in norm(st.iter)), None)
+    from ..packed import single_defs, resolve_names
+    fdefs = single_defs(fn)
+    loop = next((st for st in fn.body if isinstance(st, ast.For) and "out_links" in norm(resolve_names(st.iter, fdefs))), None)
     if loop is None:
         rep.inconclusive(f"{P}.R3", construct, "", "loop over out_links not found", f"{rel}:{fn.lineno}")
         return
+    # link slot i ↔ mapping i: the index that selects the mapping is the position in out_links itself (−1 placeholders of
+    # disconnected links keep their slot); enumerating a filtered copy shifts every later link onto an earlier mapping
+    it = resolve_names(loop.iter, fdefs)
+    if isinstance(it, ast.Call) and norm(it.func) == "enumerate" and it.args:
+        seq = it.args[0]
+        while isinstance(seq, ast.Call) and norm(seq.func) in ("list", "tuple", "iter") and len(seq.args) == 1:
+            seq = seq.args[0]
+        filtered = (isinstance(seq, (ast.ListComp, ast.GeneratorExp)) and any(g_.ifs for g_ in seq.generators)) or \
+            (isinstance(seq, ast.Call) and norm(seq.func) in ("filter", "filterfalse", "itertools.filterfalse", "compress"))
+        uses_index = isinstance(loop.target, ast.Tuple) and loop.target.elts and any(
+            isinstance(x, ast.Subscript) and "mappings" in norm(x.value) and norm(x.slice) == norm(loop.target.elts[0]) for x in ast.walk(loop))
+        if filtered and uses_index:
+            rep.violation(f"{P}.R3", construct, norm(it)[:120],
+                          "the mapping is selected by the position in a FILTERED copy of out_links: once an earlier link is disconnected (a −1 "
+                          "placeholder) every later link is paired with the mapping of an earlier slot", f"{rel}:{loop.lineno}")
+        elif norm(seq) == "self.out_links" and uses_index:
+            rep.ok(f"{P}.R3", construct, norm(it), "mapping i is selected by the link's own slot number")
     g = CFG(loop, loop_body=True)
     dom = g.dominators()
     uses = []
